@@ -290,7 +290,7 @@ def cli_diff_case(ctx, rng, workdir, idx):
         return      # (polygons with differing corner counts inside one .vtu are exercised by C05)
     n = len(M["pts"])
     M["pf"]["u"] = [Fr(rng.randint(-64, 64), 8) for _ in range(n)]
-    N, perm, _ = G.relabel(rng, M, blocks=False)
+    N, perm, _ = G.relabel(rng, M, blocks=False, rotate=rng.random() < 0.5)
     delta = {}
     if rng.random() < 0.6:
         j = rng.randrange(n)
